@@ -6,6 +6,7 @@ the reporters do (verif hook `price_conversion`) and also prints the balance and
 Lean model gets the AST and the entries (instants in ns).  The oracle recomputes `rateAt` with Fractions
 from the entries of the case and checks every converted figure, the metadata and the report texts."""
 import datetime
+from decimal import Decimal as D
 from fractions import Fraction as F
 
 import common
@@ -17,7 +18,7 @@ ODD_RATES = ["0", "-1", "0.00", "-0.5"]
 OFFSETS = [0, 3600, 7200, -18000, 19800, 20700, -34200, 50400, -43200, 86340, -86340]
 TS_MAX_NS = 253402207200 * 10 ** 9 + 999999999        # jiff Timestamp::MAX = 9999-12-30T22:00:00.999999999Z
 BOUNDARY = ["at-instant", "none-before", "inverse-only", "chain-only", "two-targets", "self-rate", "dup-keys",
-            "empty-comm", "in-report-comm", "max-instant", "notations", "given-edge", "unused-report-comm", "lookup-none"]
+            "empty-comm", "in-report-comm", "max-instant", "notations", "given-edge", "unused-report-comm", "lookup-none", "config-error"]
 
 
 def cfg_offset(cfg):
@@ -221,6 +222,8 @@ class C07(PropBase):
         if kind == "dup-keys" or (kind == "random" and rng.random() < 0.05):
             for e in rng.sample(entries, min(len(entries), rng.randrange(1, 4))):
                 entries.append([e[0], e[1], rng.choice(RATES), e[3]])
+        if kind == "config-error" and rng.random() < 0.5:
+            entries = []                             # a price file without entries is rejected
         rng.shuffle(entries)                         # the price file is in arbitrary order
         prices = []
         for ns, b, r, t in entries:
@@ -233,7 +236,10 @@ class C07(PropBase):
         if before_ns is not None:
             pcfg["before"] = render_instant(rng, before_ns, cfg)
         cfg["price"] = pcfg
-        cfg["report_commodity"] = rc
+        if kind == "config-error" and entries:
+            rc = None                                # conversion without a report commodity is rejected
+        else:
+            cfg["report_commodity"] = rc
         text = common.render_journal(txns, common.gen_layout(rng))
         return {"op": "price", "kind": kind, "cfg": cfg, "txns": txns, "text": text, "prices": prices,
                 "lookup": lookup, "before_ns": (str(before_ns) if before_ns is not None else None),
@@ -287,6 +293,8 @@ class C07(PropBase):
             return None      # C15's business
         if r == "ERR":
             return None      # the journal itself is rejected (C01's business; the tie compares the status)
+        if r == "CFGERR" and case["lookup"] != "none" and (not case["prices"] or case["report_commodity"] is None):
+            return None      # documented configuration errors: empty price file, no report commodity
         if r != "OK":
             return {"sig": "unexpected-status", "what": "valid journal + price file not processed: %s %s" % (r, (impl.get("msg") or "")[:200])}
         conv = impl["conv"]
@@ -295,6 +303,8 @@ class C07(PropBase):
         self.remember(case)
         lookup = case["lookup"]
         rc = case["report_commodity"]
+        if lookup != "none" and (not case["prices"] or rc is None):
+            return {"sig": "config-accepted", "what": "price conversion without %s was accepted" % ("price entries" if rc is not None else "a report commodity")}
         before_ns = int(case["before_ns"]) if case.get("before_ns") is not None else None
         entries = [(int(e["ns"]), e["base"], e["rate"], e["target"]) for e in case["prices"]]
         keys = [(e[0], e[1], e[3]) for e in entries]
@@ -344,6 +354,10 @@ class C07(PropBase):
                 val = F(c["amount"])
                 hit = [q for q in ok_rates if F(o["amount"]) * q == val]
                 if not hit:
+                    exact = D(o["amount"]) * D(rates[0])
+                    if not common.dec_fits(exact) and abs(val - F(o["amount"]) * ok_rates[0]) <= abs(val) * F(1, 10 ** 18):
+                        return {"sig": "F17:inexact-arithmetic", "what": "converted value %s is the rounded product of %s x %s (exact %s is not representable, rust_decimal rounded silently)" % (
+                            c["amount"], o["amount"], rates[0], exact)}
                     return {"sig": "wrong-rate", "what": "posting %s %s %s at %d valued %s %s; documented rate %s (entry at %d) gives %s" % (
                         o["acct"], o["amount"], src, tns, c["amount"], rc, rates[0], best_ns, F(o["amount"]) * ok_rates[0])}
                 if lookup == "txn-time":
@@ -400,6 +414,8 @@ class C07(PropBase):
             except (ValueError, ZeroDivisionError):
                 return {"sig": "balance-text", "what": "unreadable balance row %s" % str(k)}
             if sv != v:
+                if abs(sv - v) <= abs(v) * F(1, 10 ** 18) and len(str(v.numerator)) > 25:
+                    return {"sig": "F17:inexact-arithmetic", "what": "balance sum %s for %s %s is a rounded sum (exact %s)" % (shown[k], k[1], k[0], v)}
                 return {"sig": "balance-figures", "what": "balance report shows %s for %s %s, converted postings sum to %s" % (shown[k], k[1], k[0], v)}
         for (c, a), own in shown.items():
             if (c, a) not in sums and F(own) != 0:
